@@ -615,7 +615,12 @@ def build_views(facts):
                         continue
                 v.helpers.append(fn)
             else:
-                v.helpers.append(fn)  # other trait impls written by hand (Default)
+                if fn.name in ('default', 'from') and not any(i.startswith('&') and ('Self' in i or v.adt_path in i) for i in fn.inputs) \
+                        and (fn.output == 'Self' or fn.output.startswith(v.adt_path) or re.sub(r'<.*', '', fn.output).endswith(v.name)):
+                    # a hand-written `Default::default` / `From::from` builds a view: it is a constructor (its initial state is examined)
+                    v.ctors.append(fn)
+                    continue
+                v.helpers.append(fn)  # other trait impls written by hand (Display, ..)
         views.append(v)
     views.sort(key=lambda v: v.name)
     return views
